@@ -17,7 +17,7 @@ run_one() {
   res=""
   for p in ${props//,/ }; do
     out=$("$bin" -property "$p" -root "$d/repo" -verif "$d/ev" -known /verif/known_findings.txt 2>&1); st=$?
-    rules=$(echo "$out" | grep -o 'violation: R[^ ]*' | sed 's/violation: //' | sort -u | tr '\n' ',' )
+    rules=$(echo "$out" | grep -o 'violation: [A-Z][^ ]*' | sed 's/violation: //' | sort -u | tr '\n' ',' )
     und=$(echo "$out" | grep -c '^UNDECIDED')
     res="$res $p=$st[${rules%,}]"; [ "$und" != 0 ] && res="$res(undecided:$und)"
   done
